@@ -35,17 +35,26 @@ CLAIMED.update({
     'C11': (_TAB + ' (todict/fromdict/fromjson/python-literal round trips incl. raw=True under permutations of the stored order; pickle sentence NOT covered)', '5 C11'),
     'C15': ('relational symbolic execution: the real generators run on a symbolic table and on its transform (row/column rotation, transpose, duplicated row/column) on the same path, correspondence of the yielded families decided by SMT; metamorphic per-table comparison over the solver-driven table partition', '5 C15'),
 })
+CLAIMED.update({
+    'C12': ('symbolic execution of the real table/cxt/wiki-table dumpers and loaders on labels whose characters are solver '
+            'variables (21-bit code points; str operations on the proxy are solver decisions, io.StringIO modelled, str '
+            'operators redirected by a load-time AST transform) with symbolic cells: per path SMT queries for an independent '
+            'reader of the emitted text, loads(dumps(x)) == x and independent writers; every format (csv, python-literal, '
+            'fimi, files, encodings, load() suffix inference) per table on fixed awkward labels over the solver-driven '
+            'table partition; z3 QF_BV', '5 C12'),
+})
 PENDING = {}
-NA = {
-    'C12': 'text formats quantify over label strings, encodings, csv dialects and files: code is str methods, %-formatting, '
-           'io.StringIO, the C csv module and open(); the engine has no string theory and CrossHair realises at those C '
-           'boundaries (Not confirmed) -- see DESIGN.md section 6',
-}
+NA = {}
 NOTES = {
     'C11': ' NOT covered by this check: the pickle sentence of C11 (pickling a context or lattice in the same or another '
            'interpreter process, recursion depth for thousands of concepts): pickle is C code over the real bitsets class '
            'registry, the symbolic proxies cannot pass through it, and lattice sizes in the thousands are outside any '
            'symbolic bound.',
+    'C12': ' Claimed for the part the solver reaches. Label TEXT is symbolic only for the table, cxt and wiki-table formats '
+           '(labels of the stated lengths, every code point allowed by the representability condition). NOT covered with '
+           'symbolic text: csv and python-literal (C csv module / ast parser: a proxy cannot pass; these run on a fixed menu '
+           'of awkward concrete labels per table only), encodings (three concrete encodings on concrete labels), csv '
+           'dialects other than excel, file-suffix strings other than the registered suffixes in lower and upper case.',
     'C17': ' Hash randomisation is modelled (every iteration order of every set built by repository code), which '
            'quantifies over a superset of what PYTHONHASHSEED can produce; the literal multi-process experiment is only run '
            'to replay counterexamples and to validate sampled corpus items (5 seeds).',
